@@ -38,17 +38,23 @@ def run_generic(ctx, pid, kind, predicate, extra_docs, trusted, rule_text, cfg_f
         return d
 
     cases = [(mkcfg(rng, k), "parse", mkdoc(rng, k), None) for k in range(n_corr)]
+    # the hand-made corner documents first, each under the two configurations that switch every rule on
+    fixed = [(dict(configs.STANDARD[ci], ruler2_off=[]), d) for d in docs.corner_docs() for ci in (2, 4)]
+    if cfg_filter:
+        fixed = [(cfg_filter(c), d) for c, d in fixed]
+    cases = [(c, "parse", d, None) for c, d in fixed] + cases
     n_run, disagreements, kn, kbad, lines = pipecheck.correspond(cases, pid.lower())
 
     count = {"n": 0}
 
     def probe(r, n):
-        for k in range(n):
-            cfg = mkcfg(r, k)
+        for k in range(-len(fixed), n):
+            cfg, src = fixed[k] if k < 0 else (mkcfg(r, k), None)
             md = configs.make_md(cfg)
             if not supported(md):
                 continue
-            src = mkdoc(r, k)
+            if src is None:
+                src = mkdoc(r, k)
             env = {}
             try:
                 ts = guarded(md.parse, src, env)
